@@ -105,7 +105,8 @@ def build(kind, origin):
 
 
 def operations(kty, crv):
-    ops = ["as_dict(private=False)", "KeySet.as_dict(private=False)", "thumbprint", "kid", "dict(key) after public export",
+    ops = ["as_dict(private=False)", "KeySet.as_dict(private=False)", "KeySet.as_dict(private=False) mixed-oct-first",
+           "KeySet.as_dict(private=False) mixed-oct-middle", "KeySet.as_dict(private=False) mixed-oct-last", "thumbprint", "kid", "dict(key) after public export",
            "private-export-from-public"]
     if kty != "oct":
         ops += ["as_pem(private=False)", "as_der(private=False)", "as_bytes(PEM,private=False)", "as_bytes(DER,private=False)",
@@ -157,6 +158,12 @@ def h_outputs(ctx):
         r = call(lambda: key.as_dict(private=False))
     elif op == "dict(key) after public export":
         r = call(lambda: (key.as_dict(private=False), key.as_dict(private=False, kid="x"))[1])
+    elif op.startswith("KeySet.as_dict(private=False) mixed"):
+        # mixed sets: a symmetric key ahead of / between asymmetric private keys
+        mates = [A.jkey(scen.key("oct32", 3), "dict"), A.jkey(scen.key("P-384", 3), "dict"), A.jkey(scen.key("Ed25519", 3), "dict")]
+        order = {"mixed-oct-first": [mates[0], key, mates[1]], "mixed-oct-middle": [mates[1], mates[0], key, mates[2]], "mixed-oct-last": [key, mates[2], mates[0]]}[op.split(" ")[-1]]
+        ndl = ndl + needles(scen.key("P-384", 3)) + needles(scen.key("Ed25519", 3))
+        r = call(lambda: KeySet(order).as_dict(private=False))
     elif op.startswith("KeySet.as_dict(private=False)"):
         other = A.jkey(rjwk.public_of(scen.key(kind, 1)) if kty != "oct" else scen.key(kind, 1), "dict")
         r = call(lambda: KeySet([key, other]).as_dict(private=False))
@@ -229,8 +236,8 @@ def h_outputs(ctx):
         if isinstance(o, dict):
             if "kty" in o or path.endswith("epk"):
                 for m in rjwk.PRIVATE.get(o.get("kty"), []) if o.get("kty") in rjwk.PRIVATE else ["d", "p", "q", "dp", "dq", "qi", "oth", "k"]:
-                    if m in o and not (o.get("kty") == "oct" and False):
-                        yield path, m
+                    if m in o:
+                        yield path, m, str(o.get("kty"))
             for k, v in o.items():
                 yield from walk(v, path + "/" + str(k))
         elif isinstance(o, list):
@@ -253,11 +260,12 @@ def h_outputs(ctx):
                     pass
     cls = op.split("(")[0] if not op.startswith(("jws", "jwe", "jwt")) else op
     for s_ in structs:
-        for path, m in walk(s_):
-            vs.append(viol(f"{cls} output carries the private member {m!r} ({tag})", f"{lab}: at {path or '/'}"))
+        for path, m, ekty in walk(s_):
+            vs.append(viol(f"{cls} output carries the private member {m!r} ({ekty})", f"{lab}: at {path or '/'}"))
     found = leaks(out, ndl)
     for m in found:
-        vs.append(viol(f"{cls} output contains the octets of private parameter {m!r} ({tag})", f"{lab}: output {str(out)[:160]}"))
+        owner = "oct" if m == "k" else tag
+        vs.append(viol(f"{cls} output contains the octets of private parameter {m!r} ({owner if cls.startswith('KeySet') else tag})", f"{lab}: output {str(out)[:160]}"))
     return Outcome(f"{'clean' if not vs else 'LEAK'}:{cls.split('-')[0]}", vs, nontrivial=(label, origin, op))
 
 
